@@ -294,6 +294,41 @@ type divergence struct {
 
 func (d *divergence) Error() string { return fmt.Sprintf("step %d: %s: %s", d.step, d.kind, d.why) }
 
+var rePosRole = regexp.MustCompile(`^(run|c|w)\d* expected (?:parked at |to have |in its |still )?(\S+)`)
+
+// code names WHAT diverged (never how): the runner builds the violation key from it
+func (d *divergence) code() string {
+	w := d.why
+	switch {
+	case d.kind != "state" && d.kind != "position":
+		return d.kind
+	case strings.HasPrefix(w, "wait list has"):
+		var got, want int
+		fmt.Sscanf(w, "wait list has %d entries, specification %d", &got, &want)
+		if got < want {
+			return "waitlist:entry-lost"
+		}
+		return "waitlist:entry-leaked"
+	case strings.HasPrefix(w, "update channel"):
+		return "diverged:update-channel"
+	case strings.HasPrefix(w, "best connection"):
+		return "diverged:best"
+	case strings.HasPrefix(w, "head of connection"):
+		return "diverged:head"
+	case strings.HasPrefix(w, "channel of waiter"):
+		return "diverged:waiter-channel"
+	case strings.Contains(w, "returned err=") && strings.HasSuffix(w, "specification result ok"):
+		return "wait-missed-head"
+	case strings.Contains(w, "returned err=<nil>"):
+		return "wait-unjustified-success"
+	}
+	if m := rePosRole.FindStringSubmatch(w); m != nil {
+		role := map[string]string{"run": "run", "c": "conn", "w": "caller"}[m[1]]
+		return "diverged:position:" + role + ":" + strings.TrimSuffix(m[2], ",")
+	}
+	return "diverged:" + d.kind
+}
+
 // ---------------------------------------------------------------- the replayer
 func newExec(sc *vScript, U time.Duration) *vExec {
 	ex := &vExec{id: sc.ID, U: U, slack: U, fsh: sc.Fsh}
@@ -737,7 +772,7 @@ func (ex *vExec) exec(sc *vScript) vM {
 	res["followed"] = done
 	if dv != nil {
 		res["status"] = "diverged"
-		res["divergence"] = vM{"step": dv.step, "kind": dv.kind, "why": dv.why, "action": sc.Steps[dv.step].A}
+		res["divergence"] = vM{"step": dv.step, "kind": dv.kind, "code": dv.code(), "why": dv.why, "action": sc.Steps[dv.step].A}
 	} else {
 		res["status"] = "followed"
 	}
@@ -1026,7 +1061,7 @@ func (ex *vExec) classifyHang() (string, []string) {
 		return true
 	})
 	var stacks []string
-	notifySend, setHeadSend, lockWaiters, headReaders := false, false, 0, 0
+	notifySend, setHeadSend, nestedRLock, lockWaiters, headReaders := false, false, false, 0, 0
 	for _, g := range strings.Split(string(buf), "\n\n") {
 		m := reGo.FindStringSubmatch(g)
 		if m == nil {
@@ -1062,17 +1097,23 @@ func (ex *vExec) classifyHang() (string, []string) {
 			setHeadSend = true
 		case strings.Contains(state, "RWMutex") && strings.Contains(top, "MasterHead"):
 			headReaders++
+		case strings.Contains(state, "RLock") && len(fns) > 1 && strings.Contains(strings.Join(fns[1:], " "), "notifySubscribers"):
+			// a read lock requested by a callee of notifySubscribers, which holds the read lock already
+			nestedRLock = true
 		case strings.Contains(state, "Mutex") || strings.Contains(state, "semacquire"):
 			// sync.RWMutex.Lock (the writer waiting for the readers) or sync.Mutex.Lock (writers queued behind it)
 			lockWaiters++
 		}
 	}
 	sort.Strings(stacks)
-	_ = headReaders
 	switch {
 	case notifySend && lockWaiters > 0:
 		return "notify-blocks-on-full-waiter", stacks
-	case setHeadSend:
+	case nestedRLock && lockWaiters > 0:
+		// the run loop holds the pool's read lock and asks for it again while a writer is queued: neither can proceed
+		return "notify-recursive-rlock", stacks
+	case setHeadSend && headReaders > 0:
+		// a connection blocked publishing its head while holding its lock, and somebody waiting for that lock
 		return "sethead-blocks-holding-conn-lock", stacks
 	}
 	return "hang:" + strings.Join(stacks, ";"), stacks
